@@ -94,8 +94,14 @@ def mixture_history(rng, length):
             w, mu, sg = params(rng.choice([1, 2, 3, 4, 6]))
             k = len(w)
             steps.append('cw ' + enc(w) + ' ' + enc(mu) + ' ' + enc(sg))
-        elif r < 0.93:
+        elif r < 0.91:
             steps.append('clone')
+        elif r < 0.96 and k <= 12:
+            # Mixture::combine of the live object with a second mixture, either of which may have been queried before
+            # (seeded change C09-7: cached ln_weights of the inputs carried into the result)
+            w, mu, sg = params(rng.choice([1, 2, 3]))
+            k += len(w)
+            steps.append('comb ' + enc(w) + ' ' + enc(mu) + ' ' + enc(sg) + ' ' + str(rng.choice([0, 1, 2, 3])))
         else:
             steps.append('eq')
     return f'hist.MixtureGaussian - {enc(w0)} {enc(mu0)} {enc(sg0)} {len(steps)} ' + ' '.join(steps), steps
